@@ -141,24 +141,6 @@ impl TypedProgram {
             errs.sort();
             return Err(errs);
         }
-        let mut sorted_const_defs: Vec<_> = self.const_defs.iter().collect();
-        // Sort by the meta information of the const defs so we iterate them in the order that
-        // they occur in the source code
-        sorted_const_defs.sort_by_key(|(_name, const_def)| const_def.meta);
-        for (const_name, const_def) in sorted_const_defs {
-            if let Type::Unsigned(UnsignedNumType::Usize) = const_def.ty {
-                if let ConstExpr(ConstExprEnum::ExternalValue { party, identifier }, _) =
-                    &const_def.value
-                {
-                    let identifier = format!("{party}::{identifier}");
-                    const_sizes.insert(const_name.clone(), *const_sizes.get(&identifier).unwrap());
-                }
-                let n = resolve_const_expr_unsigned(&const_def.value, &consts_unsigned);
-                const_sizes.insert(const_name.clone(), n as usize);
-                consts_unsigned.insert(const_name.clone(), n);
-            }
-        }
-
         let mut errs = vec![];
         for (party, deps) in self.const_deps.iter() {
             for (c, (ty, _)) in deps {
@@ -188,6 +170,24 @@ impl TypedProgram {
             errs.sort();
             return Err(errs);
         }
+        let mut sorted_const_defs: Vec<_> = self.const_defs.iter().collect();
+        // Sort by the meta information of the const defs so we iterate them in the order that
+        // they occur in the source code
+        sorted_const_defs.sort_by_key(|(_name, const_def)| const_def.meta);
+        for (const_name, const_def) in sorted_const_defs {
+            if let Type::Unsigned(UnsignedNumType::Usize) = const_def.ty {
+                if let ConstExpr(ConstExprEnum::ExternalValue { party, identifier }, _) =
+                    &const_def.value
+                {
+                    let identifier = format!("{party}::{identifier}");
+                    const_sizes.insert(const_name.clone(), *const_sizes.get(&identifier).unwrap());
+                }
+                let n = resolve_const_expr_unsigned(&const_def.value, &consts_unsigned);
+                const_sizes.insert(const_name.clone(), n as usize);
+                consts_unsigned.insert(const_name.clone(), n);
+            }
+        }
+
         let mut input_gates = vec![];
         let mut wire = 2;
         let Some(fn_def) = self.fn_defs.get(fn_name) else {
